@@ -7,6 +7,11 @@
 // value was produced by a loader (or written by the other application) for that key, two loaders for one key
 // never run at once unless the first one's lock was removed in between (expiry, Del, its client died), a lock
 // left by a dead client is released so that a waiting Get loads, Gets return in time.
+// Kind "race": several cache-missing Gets (distinct keys) start at once on ONE client that has no id yet, so that they
+// race in keepalive (the reply of the first marker SET is held back a little); their loaders block on a gate; the
+// virtual clock is then advanced past ClientTTL in two hops, each after a refresh of the client's marker has been
+// seen, so that markers nobody refreshes expire while the client stays alive; other clients then ask for those keys.
+// A placeholder taken away from a client that is alive (open, one of its markers present) is an oracle failure.
 package main
 
 import (
@@ -16,6 +21,7 @@ import (
 	"encoding/json"
 	"errors"
 	"fmt"
+	"runtime"
 	"strconv"
 	"strings"
 	"sync"
@@ -39,7 +45,7 @@ type Loader struct {
 }
 
 type Step struct {
-	Op  string `json:"op"` // get | goget | join | del | extset | extdel | tick | close | sleep | open | expect | until (Val: loading | waiting)
+	Op  string `json:"op"` // get | goget | join | del | extset | extdel | tick | close | sleep | open | expect | until (Val: loading | waiting; Key optional) | refreshwait
 	C   int    `json:"c,omitempty"`
 	Key string `json:"key,omitempty"`
 	Val string `json:"val,omitempty"`
@@ -63,10 +69,12 @@ var slack = 15 * time.Second
 
 func genCase(r *gen.Rand, i int) any {
 	c := Case{Clients: r.Range(2, 4), Lua: r.Chance(1, 3), TTL: 60000, CTTL: 60000}
-	c.Kind = gen.Pick(r, []string{"solo", "solo", "share", "share", "share", "fail", "fail", "death", "death", "expire", "ext", "panic", "nofn"})
+	c.Kind = gen.Pick(r, []string{"solo", "solo", "share", "share", "share", "fail", "fail", "death", "death", "expire", "ext", "panic", "nofn", "race", "race", "race"})
 	add := func(s Step) { c.Steps = append(c.Steps, s) }
 	key := gen.Pick(r, []string{"k", "user:1", "a b", "rueid"})
-	val := func() string { return gen.Pick(r, []string{"v1", "v2", "", "x y", "rueidis", "0", "long-" + strings.Repeat("z", r.Intn(40))}) + strconv.Itoa(r.Intn(1000)) }
+	val := func() string {
+		return gen.Pick(r, []string{"v1", "v2", "", "x y", "rueidis", "0", "long-" + strings.Repeat("z", r.Intn(40))}) + strconv.Itoa(r.Intn(1000))
+	}
 	nap := func() { add(Step{Op: "sleep", Ms: gen.Pick(r, []int{0, 1, 5, 20})}) }
 	switch c.Kind {
 	case "solo": // miss -> load -> hits -> Del -> miss again
@@ -129,6 +137,32 @@ func genCase(r *gen.Rand, i int) any {
 		add(Step{Op: "until", C: 1, Val: "waiting"})
 		add(Step{Op: "tick", Ms: c.TTL + 1})
 		add(Step{Op: "join"})
+	case "race": // several first Gets of one fresh client race in keepalive; markers nobody refreshes expire while they load
+		c.CTTL = 240
+		n := r.Range(2, 4)
+		keys := []string{key, key + ":b", "other", key + "/3"}[:n]
+		for _, k := range keys {
+			add(Step{Op: "goget", C: 0, Key: k, Ld: Loader{Kind: "gate", Val: val()}})
+		}
+		for _, k := range keys {
+			add(Step{Op: "until", C: 0, Key: k, Val: "loading"})
+		}
+		if !r.Chance(1, 5) {
+			add(Step{Op: "refreshwait", C: 0})
+			add(Step{Op: "tick", Ms: c.CTTL * 6 / 10})
+			add(Step{Op: "refreshwait", C: 0})
+			add(Step{Op: "tick", Ms: c.CTTL * 6 / 10})
+		}
+		perm := r.Intn(n)
+		for cl := 1; cl < c.Clients; cl++ {
+			add(Step{Op: "goget", C: cl, Key: keys[(perm+cl-1)%n], Ld: Loader{Kind: "ok", Val: val()}})
+		}
+		for cl := 1; cl < c.Clients; cl++ {
+			add(Step{Op: "until", C: cl, Val: "waiting"})
+		}
+		add(Step{Op: "open"})
+		add(Step{Op: "join"})
+		add(Step{Op: "get", C: 1, Key: keys[r.Intn(n)], Ld: Loader{Kind: "ok", Val: val()}})
 	case "nofn": // no loader: a miss is reported, a stored value is returned
 		add(Step{Op: "get", C: 0, Key: key, Ld: Loader{Kind: "none"}})
 		add(Step{Op: "get", C: 1, Key: key, Ld: Loader{Kind: "ok", Val: val()}})
@@ -150,7 +184,9 @@ type getRec struct {
 	started time.Time
 	ended   time.Time
 	lockID  string
-	ctxErr  bool // it returned because its context ended while it waited
+	ctxErr  bool   // it returned because its context ended while it waited
+	ph      string // the placeholder it read last
+	newid   string // the marker its keepalive SET
 }
 
 type loadRec struct {
@@ -166,24 +202,31 @@ type world struct {
 	env  rueidis.Client
 	gate chan struct{}
 
-	mu       sync.Mutex
-	steps    []string
-	gets     []*getRec
-	cur      []*getRec // per client: the Get in flight
-	ids      []string  // per client: the id the client uses (learnt from its SET)
-	names    map[int]string
-	shaKind  map[string]string
-	lastNow  int64
-	now0     int64
-	keys     map[string]bool     // cached keys used by the case
-	produced map[string][]string // key -> values produced by loaders / written by the other application
-	running  []*loadRec
-	dead     map[string]bool // ids of closed clients
-	closedCl map[int]bool
-	oracle   string
-	class    string
-	sig      []string
-	loads    int
+	mu        sync.Mutex
+	steps     []string
+	gets      []*getRec
+	cur       [][]*getRec        // per client: the Gets in flight (distinct keys)
+	inst      []string           // per client: the id installed as c.id, as far as the recorded steps tell
+	markers   []map[string]bool  // per client: every marker it ever SET
+	owner     map[string]int     // marker -> the client that SET it
+	setOwner  map[string]*getRec // marker -> the Get whose keepalive sends it (learnt on the client side, by goroutine)
+	byGo      map[int64]*getRec  // goroutine -> the Get it runs
+	lost      map[int]bool       // clients that lost a connection (onInvalidation(nil))
+	refreshes []int              // per client: refreshes seen
+	names     map[int]string
+	shaKind   map[string]string
+	lastNow   int64
+	now0      int64
+	keys      map[string]bool     // cached keys used by the case
+	produced  map[string][]string // key -> values produced by loaders / written by the other application
+	running   []*loadRec
+	dead      map[string]bool // markers that were deleted
+	expired   map[string]bool // markers that expired
+	closedCl  map[int]bool
+	oracle    string
+	class     string
+	sig       []string
+	loads     int
 }
 
 func (w *world) fail(class, msg string) {
@@ -256,7 +299,79 @@ func (w *world) tickIfAdvanced() {
 				l.disturbed = true
 			}
 		}
+		w.markExpired()
 	}
+}
+
+// markExpired (server lock held): markers that are gone without having been deleted
+func (w *world) markExpired() {
+	for id := range w.owner {
+		if !w.dead[id] && !w.expired[id] && w.s.Get(id) == nil {
+			w.expired[id] = true
+		}
+	}
+}
+
+// alive (server lock held): the client is open, has not lost a connection, and one of its markers is present
+func (w *world) alive(ci int) (string, bool) {
+	if w.closedCl[ci] || w.lost[ci] {
+		return "", false
+	}
+	for id := range w.markers[ci] {
+		if w.s.Get(id) != nil {
+			return id, true
+		}
+	}
+	return "", false
+}
+
+// getFor: the Get in flight on client ci for the key; probing: the one that reads the liveness key id
+func (w *world) getFor(ci int, key string) *getRec {
+	for _, g := range w.cur[ci] {
+		if g.key == key {
+			return g
+		}
+	}
+	return nil
+}
+
+func (w *world) probing(ci int, id string) *getRec {
+	for _, g := range w.cur[ci] {
+		if g.state == "probe" && g.ph == id {
+			return g
+		}
+	}
+	for _, g := range w.cur[ci] {
+		if g.state == "probe" {
+			return g
+		}
+	}
+	return nil
+}
+
+func (w *world) drop(g *getRec) {
+	l := w.cur[g.client]
+	for i, x := range l {
+		if x == g {
+			w.cur[g.client] = append(l[:i:i], l[i+1:]...)
+			return
+		}
+	}
+}
+
+func goid() int64 {
+	var buf [64]byte
+	n := runtime.Stack(buf[:], false)
+	f := strings.Fields(string(buf[:n]))
+	if len(f) < 2 {
+		return -1
+	}
+	id, _ := strconv.ParseInt(f[1], 10, 64)
+	return id
+}
+
+func isMarkerSet(argv []string) bool {
+	return len(argv) >= 5 && strings.ToUpper(argv[0]) == "SET" && strings.HasPrefix(argv[1], rueidisaside.PlaceholderPrefix) && argv[2] == ""
 }
 
 func (w *world) disturb(key string) {
@@ -273,7 +388,7 @@ func (w *world) afterRead(g *getRec, v *string) {
 	case v == nil:
 		g.state = "miss"
 	case strings.HasPrefix(*v, rueidisaside.PlaceholderPrefix):
-		g.state = "probe"
+		g.state, g.ph = "probe", *v
 	default:
 		g.state = "returning"
 	}
@@ -321,31 +436,41 @@ func (w *world) onExec(e fakeredis.Entry) {
 	case ci < 0:
 		return
 	case up == "GET" && e.InTx && len(e.Argv) == 2: // the GET inside the cached-read transaction
-		g := w.cur[ci]
-		if g == nil {
-			return
-		}
 		k := e.Argv[1]
 		v := replyVal()
-		if k == g.key {
+		if g := w.getFor(ci, k); g != nil {
 			w.wakeIfWaiting(g)
 			w.emit(obs.App("ARead", obs.Nat(g.id), "false", "false"), "(OVal "+optBytes(v)+")")
 			w.afterRead(g, v)
-		} else {
+		} else if g := w.probing(ci, k); g != nil {
 			w.emit(obs.App("AProbe", obs.Nat(g.id), "false", "false"), "(OVal "+optBytes(v)+")")
 			w.afterProbe(g, v)
 		}
-	case up == "SET" && len(e.Argv) >= 5 && strings.HasPrefix(e.Argv[1], rueidisaside.PlaceholderPrefix) && e.Argv[2] == "":
-		// SET id "" PX ttl: keepalive (first time) or the refresh goroutine
+	case isMarkerSet(e.Argv):
+		// SET id "" PX ttl: keepalive of a Get that saw no id (several Gets of one client may each send one), or the
+		// refresh goroutine
 		id := e.Argv[1]
-		if w.ids[ci] == id {
+		if w.markers[ci][id] {
 			w.emit(obs.App("ARefresh", obs.Nat(ci)), "ONone")
+			w.refreshes[ci]++
+			delete(w.expired, id)
 			return
 		}
-		w.ids[ci] = id
-		if g := w.cur[ci]; g != nil {
+		w.markers[ci][id] = true
+		w.owner[id] = ci
+		g := w.setOwner[id]
+		if g == nil || g.done || g.client != ci {
+			g = nil
+			for _, x := range w.cur[ci] {
+				if x.state == "miss" {
+					g = x
+					break
+				}
+			}
+		}
+		if g != nil {
 			w.emit(obs.App("AKeep", obs.Nat(g.id), obs.HS(id), "false"), "ONone")
-			g.state = "keep"
+			g.state, g.newid = "keep", id
 		}
 	case up == "SET" && len(e.Argv) >= 6 && w.keys[e.Argv[1]]: // SET key id NX GET PX ttl
 		w.lockEvent(ci, e.Argv[1], e.Argv[2], replyVal())
@@ -356,6 +481,9 @@ func (w *world) onExec(e fakeredis.Entry) {
 			w.disturb(k)
 		} else {
 			w.dead[k] = true
+			if w.inst[ci] == k {
+				w.inst[ci] = "" // Close / onInvalidation(nil) deleted the client's id
+			}
 			for _, l := range w.running { // the holder's liveness key is gone: others may take its lock away
 				if l.get.lockID == k {
 					l.disturbed = true
@@ -375,10 +503,10 @@ func (w *world) onExec(e fakeredis.Entry) {
 			kind = w.shaKind[strings.ToLower(e.Argv[1])]
 		}
 		keys, args := addon2.ScriptArgs(e.Argv)
-		g := w.cur[ci]
 		if kind == "" || len(keys) != 1 || len(args) < 1 {
 			return
 		}
+		g := w.getFor(ci, keys[0])
 		switch kind {
 		case "lock":
 			w.lockEvent(ci, keys[0], args[0], replyVal())
@@ -405,8 +533,15 @@ func (w *world) onExec(e fakeredis.Entry) {
 				w.emit(obs.App("ARelease", obs.Nat(g.id), "true"), "(OBool "+obs.Bool(ok)+")")
 				g.state = "read"
 				if ok {
-					if !w.dead[args[0]] {
-						w.fail("lock-taken-from-live-client", fmt.Sprintf("client %d deleted the placeholder %q of key %q although that client's liveness key was never deleted or expired", ci, args[0], keys[0]))
+					w.markExpired()
+					ph := args[0]
+					oc, known := w.owner[ph]
+					if !w.dead[ph] && !w.expired[ph] {
+						w.fail("lock-taken-from-live-client", fmt.Sprintf("client %d deleted the placeholder %q of key %q although that client's liveness key was never deleted or expired", ci, ph, keys[0]))
+					} else if known && !w.dead[ph] {
+						if m, ok := w.alive(oc); ok {
+							w.fail("lock-taken-from-live-client", fmt.Sprintf("client %d deleted the placeholder %q of key %q, which client %d set while its loader runs; client %d is alive (open, its marker %q is present and refreshed) but nothing refreshed %q, so it expired", ci, ph, keys[0], oc, oc, m, ph))
+						}
 					}
 					w.disturb(keys[0])
 				}
@@ -415,13 +550,34 @@ func (w *world) onExec(e fakeredis.Entry) {
 	}
 }
 
+// install: the second critical section of keepalive, which leaves no trace on the server: the Get goes on with the
+// installed id, which is its own marker only if no sibling got there first
+func (w *world) install(g *getRec) {
+	w.emit(obs.App("AInstall", obs.Nat(g.id)), "ONone")
+	if w.inst[g.client] == "" {
+		w.inst[g.client] = g.newid
+	}
+	g.state = "installed"
+}
+
 func (w *world) lockEvent(ci int, key, id string, v *string) {
-	g := w.cur[ci]
+	g := w.getFor(ci, key)
 	if g == nil {
 		return
 	}
-	if g.state != "keep" { // keepalive reused the client's id without a round trip
-		w.emit(obs.App("AKeep", obs.Nat(g.id), obs.HS(id), "false"), "ONone")
+	// the id the lock carries is the marker of a sibling Get that has not been seen since its SET: it was the
+	// first one through the critical section
+	for _, b := range w.cur[ci] {
+		if b != g && b.state == "keep" && b.newid == id {
+			w.install(b)
+		}
+	}
+	switch g.state {
+	case "keep":
+		w.install(g)
+	case "installed":
+	default: // keepalive found the client's id: no round trip
+		w.emit(obs.App("AKeepReuse", obs.Nat(g.id)), "ONone")
 	}
 	w.emit(obs.App("ALock", obs.Nat(g.id), "false"), "(OVal "+optBytes(v)+")")
 	if v == nil {
@@ -460,20 +616,31 @@ func (c *spyClient) DoCache(ctx context.Context, cmd rueidis.Cacheable, ttl time
 			}
 			w := c.w
 			w.mu.Lock()
-			if g := w.cur[c.ci]; g != nil {
-				if args[1] == g.key {
-					w.wakeIfWaiting(g)
-					w.emit(obs.App("ARead", obs.Nat(g.id), "true", "false"), "(OVal "+optBytes(v)+")")
-					w.afterRead(g, v)
-				} else {
-					w.emit(obs.App("AProbe", obs.Nat(g.id), "true", "false"), "(OVal "+optBytes(v)+")")
-					w.afterProbe(g, v)
-				}
+			if g := w.getFor(c.ci, args[1]); g != nil {
+				w.wakeIfWaiting(g)
+				w.emit(obs.App("ARead", obs.Nat(g.id), "true", "false"), "(OVal "+optBytes(v)+")")
+				w.afterRead(g, v)
+			} else if g := w.probing(c.ci, args[1]); g != nil {
+				w.emit(obs.App("AProbe", obs.Nat(g.id), "true", "false"), "(OVal "+optBytes(v)+")")
+				w.afterProbe(g, v)
 			}
 			w.mu.Unlock()
 		}
 	}
 	return res
+}
+
+// Do: the marker SET of keepalive is sent by the goroutine of the Get it belongs to
+func (c *spyClient) Do(ctx context.Context, cmd rueidis.Completed) rueidis.RedisResult {
+	if args := cmd.Commands(); isMarkerSet(args) {
+		w := c.w
+		w.mu.Lock()
+		if g := w.byGo[goid()]; g != nil {
+			w.setOwner[args[1]] = g
+		}
+		w.mu.Unlock()
+	}
+	return c.Client.Do(ctx, cmd)
 }
 
 func (w *world) newClient(ci int) (rueidisaside.CacheAsideClient, error) {
@@ -492,7 +659,8 @@ func (w *world) newClient(ci int) (rueidisaside.CacheAsideClient, error) {
 				w.mu.Lock()
 				if msgs == nil {
 					w.emit(obs.App("ALost", obs.Nat(ci)), "ONone")
-					w.ids[ci] = ""
+					w.inst[ci] = ""
+					w.lost[ci] = true
 				} else {
 					ks := make([]string, 0, len(msgs))
 					for _, m := range msgs {
@@ -523,7 +691,8 @@ func (w *world) doGet(ci int, key string, ld Loader) *getRec {
 	w.mu.Lock()
 	g.id = len(w.gets)
 	w.gets = append(w.gets, g)
-	w.cur[ci] = g
+	w.cur[ci] = append(w.cur[ci], g)
+	w.byGo[goid()] = g
 	w.keys[key] = true
 	w.emit(obs.App("AStartGet", obs.Nat(ci), obs.HS(key), obs.Z(int64(w.c.TTL)), obs.Bool(ld.Kind != "none")), "ONone")
 	w.mu.Unlock()
@@ -590,8 +759,9 @@ func (w *world) doGet(ci int, key string, ld Loader) *getRec {
 	defer w.s.Unlock()
 	defer w.mu.Unlock()
 	w.tickIfAdvanced()
+	delete(w.byGo, goid())
 	if g.state == "panicked" {
-		w.cur[ci] = nil
+		w.drop(g)
 		return g
 	}
 	g.done = true
@@ -605,6 +775,9 @@ func (w *world) doGet(ci int, key string, ld Loader) *getRec {
 	case g.state == "miss": // keepalive failed (the client is closed)
 		w.emit(obs.App("AKeep", obs.Nat(g.id), obs.HS(""), "true"), failed)
 	case g.state == "keep":
+		w.install(g)
+		w.emit(obs.App("ALock", obs.Nat(g.id), "true"), failed)
+	case g.state == "installed":
 		w.emit(obs.App("ALock", obs.Nat(g.id), "true"), failed)
 	case g.state == "probe":
 		w.emit(obs.App("AProbe", obs.Nat(g.id), "false", "true"), failed)
@@ -621,7 +794,7 @@ func (w *world) doGet(ci int, key string, ld Loader) *getRec {
 		w.endLoad(g)
 	}
 	g.state = "done"
-	w.cur[ci] = nil
+	w.drop(g)
 	// ---- direct oracle on what was returned ----
 	if strings.HasPrefix(g.val, rueidisaside.PlaceholderPrefix) {
 		w.fail("placeholder-returned", fmt.Sprintf("Get %d (client %d, key %q) returned the lock placeholder %q (err %v)", g.id, ci, key, g.val, g.err))
@@ -652,16 +825,25 @@ func run(ci any) (res obs.Result) {
 	res.Kind = c.Kind
 	res.Site = "rueidisaside/aside.go:Get"
 	w := &world{c: c, names: map[int]string{}, shaKind: map[string]string{}, keys: map[string]bool{}, produced: map[string][]string{},
-		dead: map[string]bool{}, closedCl: map[int]bool{}, gate: make(chan struct{})}
+		dead: map[string]bool{}, expired: map[string]bool{}, closedCl: map[int]bool{}, gate: make(chan struct{}),
+		owner: map[string]int{}, setOwner: map[string]*getRec{}, byGo: map[int64]*getRec{}, lost: map[int]bool{}}
 	w.s, _ = addon2.NewServer()
 	w.now0 = w.s.Now()
 	w.lastNow = w.now0
-	w.cur = make([]*getRec, c.Clients)
-	w.ids = make([]string, c.Clients)
+	w.cur = make([][]*getRec, c.Clients)
+	w.inst = make([]string, c.Clients)
+	w.refreshes = make([]int, c.Clients)
+	for i := 0; i < c.Clients; i++ {
+		w.markers = append(w.markers, map[string]bool{})
+	}
 	w.s.Fault = func(cn *fakeredis.Conn, cseq int, argv []string) fakeredis.Action {
 		w.mu.Lock()
+		defer w.mu.Unlock()
 		w.names[cn.ID] = cn.Name
-		w.mu.Unlock()
+		if c.Kind == "race" && cn.Name == "C0" && isMarkerSet(argv) && !w.markers[0][argv[1]] {
+			// hold back the reply of a first marker SET: the sibling Gets get to their own check of c.id meanwhile
+			return fakeredis.Action{DelayReply: 12 * time.Millisecond}
+		}
 		return fakeredis.Action{}
 	}
 	w.s.OnExec = w.onExec
@@ -743,6 +925,7 @@ func run(ci any) (res obs.Result) {
 					l.disturbed = true
 				}
 			}
+			w.markExpired()
 			w.mu.Unlock()
 			w.s.Unlock()
 		case "close":
@@ -754,12 +937,37 @@ func run(ci any) (res obs.Result) {
 			w.cls[st.C].Close()
 		case "until": // wait (bounded) until the Get in flight on client C is loading / waiting
 			deadline := time.Now().Add(slack)
+			seen := false
 			for time.Now().Before(deadline) {
 				w.mu.Lock()
-				g := w.cur[st.C]
+				var g *getRec
+				if st.Key != "" {
+					g = w.getFor(st.C, st.Key)
+				} else if len(w.cur[st.C]) > 0 {
+					g = w.cur[st.C][0]
+				}
 				ok := g != nil && ((st.Val == "loading" && g.state == "load") || (st.Val == "waiting" && g.state == "wait"))
+				if g != nil {
+					seen = true
+				} else if seen {
+					ok = true // it returned
+				}
 				w.mu.Unlock()
 				if ok {
+					break
+				}
+				time.Sleep(time.Millisecond)
+			}
+		case "refreshwait": // wait (bounded) for the next refresh of the client's marker
+			w.mu.Lock()
+			n0 := w.refreshes[st.C]
+			w.mu.Unlock()
+			deadline := time.Now().Add(slack)
+			for time.Now().Before(deadline) {
+				w.mu.Lock()
+				n := w.refreshes[st.C]
+				w.mu.Unlock()
+				if n > n0 {
 					break
 				}
 				time.Sleep(time.Millisecond)
@@ -774,9 +982,9 @@ func run(ci any) (res obs.Result) {
 			for time.Now().Before(deadline) {
 				w.mu.Lock()
 				pending := 0
-				for i, g := range w.cur {
-					if g != nil && !closed[i] {
-						pending++
+				for i, l := range w.cur {
+					if !closed[i] {
+						pending += len(l)
 					}
 				}
 				w.mu.Unlock()
@@ -786,9 +994,11 @@ func run(ci any) (res obs.Result) {
 				time.Sleep(2 * time.Millisecond)
 			}
 			w.mu.Lock()
-			for i, g := range w.cur {
-				if g != nil && !closed[i] {
-					w.fail("dead-lock-not-released", fmt.Sprintf("Get %d (client %d, key %q) is still waiting %v after the client that held the lock was closed", g.id, i, g.key, slack))
+			for i, l := range w.cur {
+				for _, g := range l {
+					if !closed[i] {
+						w.fail("dead-lock-not-released", fmt.Sprintf("Get %d (client %d, key %q) is still waiting %v after the client that held the lock was closed", g.id, i, g.key, slack))
+					}
 				}
 			}
 			w.mu.Unlock()
